@@ -21,3 +21,6 @@ print('aliases missing from table:', sorted(al - have_al))
 print('aliases no longer needed  :', sorted(have_al - al))
 print('cmps missing from table   :', sorted(cm - have_cm))
 print('cmps no longer needed     :', sorted(have_cm - cm))
+if '--write-cmps' in sys.argv:
+	json.dump([list(k) for k in sorted(cm | have_cm)], open('/verif/rules/provenance_cmps.json', 'w'), indent=0)
+	print('written', len(cm | have_cm))
